@@ -256,6 +256,15 @@ func (e *Engine) runVC(vc *VC, fn *ssa.Function, fc *FuncContract, splitVals []i
 		// (after assuming them unsimplified) learn  location == constant  facts
 		env.learnConsts(r.E)
 	}
+	if len(fc.Stable) > 0 {
+		for _, t := range vc.evalModClauses(fc.Stable, env) {
+			if t.kind != "cells" {
+				return fmt.Errorf("stable: only plain locations are supported (%s)", t.what)
+			}
+			vc.stable = append(vc.stable, t)
+		}
+		vc.note("assumed (stable): calls of unknown effect do not change " + fmt.Sprint(len(vc.stable)) + " declared cells of " + fc.Key)
+	}
 	if vc.exhaustOnly {
 		for _, x := range exhs {
 			le, ge := "bvsle", "bvsge"
